@@ -180,7 +180,8 @@ pub fn grammar_text(g: &Value, order: Option<&Vec<String>>) -> String {
 
 pub fn pair_json<R: pest::RuleType>(p: Pair<'_, R>, name: &dyn Fn(R) -> String, depth: usize) -> Value {
     let sp = p.as_span();
-    let tag = p.as_node_tag().unwrap_or("").to_string();
+    // node tags exist only with grammar-extras and are outside what C01 / C05 state: not exported there
+    let tag = if EXTRAS { String::new() } else { p.as_node_tag().unwrap_or("").to_string() };
     let r = name(p.as_rule());
     let (s, e) = (sp.start(), sp.end());
     let kids: Vec<Value> = if depth > 200 {
